@@ -621,12 +621,45 @@ def _g_nearest(a, r):
                  else rec["nearest_neighbour"] is a.nearest_neighbour for rec in a._ghost.get("axis_calls", ())])
 
 
-def _g_defaults(a, r):
-    """what the code does: periodic data / coordinates are left to the axis function's defaults (longitude and *direction* variables,
-    period 360) - a mapping given by the caller of interpolate_dataset_grid is NOT handed down (dataset.py:20-27 computes it, :37-42 drops it)"""
+def _norm(st, v):
+    v = st.deref(v) if isinstance(v, Ref) else v
+    if isinstance(v, (tuple, list)):
+        return tuple(_norm(st, x) for x in v)
+    if isinstance(v, dict):
+        return {str(k): _norm(st, x) for k, x in v.items()}
+    try:
+        return int(v) if float(v) == int(v) else float(v)
+    except Exception:
+        return v
+
+
+def _g_mapping(a, r):
+    """from the statement (angular data are interpolated along the shorter arc; which variables are angular is the mapping built here or
+    given by the caller): every axis call is handed the caller's periodic_data mapping when one is given, otherwise the mapping
+    {longitude variable (if in the data set): (360, 180), every variable whose name contains 'direction': (360, 360)}; periodic
+    coordinates are left to the axis function's defaults.  (The pinned tree computed this mapping and dropped it - fixed in 38ff164; the
+    first version of this clause had been derived from that code and demanded the defect.)"""
     if not _symbolic(a):
         return True
-    return all(rec["periodic_data"] is None and rec["periodic_coordinates"] is None for rec in a._ghost.get("axis_calls", ()))
+    st = a._snap
+    given = a._raw["periodic_data"]
+    names = [str(k) for k in st.deref(a._raw["data_set"]).fields["vars"].keys()]
+    lon = str(st.deref(a._raw["longitude_variable_in_dataset"]) if isinstance(a._raw["longitude_variable_in_dataset"], Ref) else a._raw["longitude_variable_in_dataset"])
+    if given is None:
+        expected = {}
+        if lon in names:
+            expected[lon] = (360, 180)
+        for v in names:
+            if "direction" in v.lower():
+                expected[v] = (360, 360)
+    else:
+        expected = _norm(st, given)
+    for rec in a._ghost.get("axis_calls", ()):
+        if rec["periodic_coordinates"] is not None or rec["periodic_data"] is None:
+            return False
+        if not (given is not None and _same_ref(rec["periodic_data"], given)) and _norm(st, rec["periodic_data"]) != expected:
+            return False
+    return True
 
 
 def _grid_native(kw, inst):
@@ -661,7 +694,7 @@ grid = Contract(DS + "interpolate_dataset_grid",
                 ensures=[("coordinates_applied_in_order_each_to_the_previous_result", _g_chain),
                          ("result_of_the_last_axis", _g_result),
                          ("nearest_neighbour_forwarded", _g_nearest),
-                         ("periodicity_left_to_the_axis_defaults", _g_defaults),
+                         ("angular_variable_mapping_built_or_given_is_handed_to_every_axis_call", _g_mapping),
                          ("operand_unchanged", _e_operand_unchanged)],
                 callees={DS + "interpolate_dataset_along_axis": AXIS_CALL}, native=_grid_native,
                 options={"samples": _grid_samples})
